@@ -6,7 +6,34 @@ ID = "C12"
 SUITE = "derive"
 LEAN_TARGETS = ["TypedpyModel.Props.C12", "TypedpyModel.Audit.C12"]
 AUDIT = "C12"
-THEOREMS = []
+THEOREMS = [
+    "Typedpy.C12.derive_shape",
+    "Typedpy.C12.derive_allFields",
+    "Typedpy.C12.specHasField_eq",
+    "Typedpy.C12.derive_fields",
+    "Typedpy.C12.derive_field_same",
+    "Typedpy.C12.derive_field_behaviour",
+    "Typedpy.C12.mem_filter_noDefault",
+    "Typedpy.C12.memberHasDefault_derived",
+    "Typedpy.C12.derive_required_partial",
+    "Typedpy.C12.derive_not_subclass",
+    "Typedpy.C12.derive_unknown_name_TypeError",
+    "Typedpy.C12.derive_pure",
+    "Typedpy.C12.derive_ignore_none_partial",
+    "Typedpy.C12.allRequired_constant_AttributeError",
+    "Typedpy.C12.hasStructure_add",
+    "Typedpy.C12.derived_keysNodup",
+    "Typedpy.C12.deriveMany_field_same",
+    "Typedpy.C12.specHasFieldMany_eq",
+    "Typedpy.C12.deriveMany_fields",
+    "Typedpy.C12.deriveMany_not_subclass",
+    "Typedpy.C12.deriveMany_pure",
+    "Typedpy.C12.extended_derived_field_same",
+    "Typedpy.C12.inherited_ignore_none_dropped",
+    "Typedpy.C12.allRequired_constant_example",
+    "Typedpy.C12.extend_drops_required",
+    "Typedpy.C12.derive_example",
+]
 RULE = ("source classes from hierarchies of 1..3 classes (mutable, ImmutableStructure / FinalStructure roots, "
         "inheritance, multiple bases, mixins, defaults of every spelling, Constants, _ignore_none own / inherited); "
         "compositions of 1..3 operators drawn from Partial / AllFieldsRequired / Extend / Omit / Pick (subscript, "
